@@ -66,8 +66,28 @@ static Outcome runOnce(const KV& c)
         thr = 1;
         o.cnt("excluded_known_F15");
     }
-    DirectSolverGiveCustomLU give(Hu.levels[0]->grid(), Hu.levels[0]->levelCache(), *Hu.geometry, *Hu.coefficients, p.dirbc, thr);
-    DirectSolverTakeCustomLU take(g, H.levels[0]->levelCache(), *H.geometry, *H.coefficients, p.dirbc, threads);
+    // short_team: the solvers are constructed (= assembled and factorised) from inside an enclosing parallel region; with
+    // nested parallelism off (the default) their own regions then run with a team of one although several threads were
+    // requested - OpenMP never promises the requested team size
+    std::unique_ptr<DirectSolverGiveCustomLU> giveP;
+    std::unique_ptr<DirectSolverTakeCustomLU> takeP;
+    auto construct = [&] {
+        giveP = std::make_unique<DirectSolverGiveCustomLU>(Hu.levels[0]->grid(), Hu.levels[0]->levelCache(), *Hu.geometry, *Hu.coefficients,
+                                                           p.dirbc, thr);
+        takeP = std::make_unique<DirectSolverTakeCustomLU>(g, H.levels[0]->levelCache(), *H.geometry, *H.coefficients, p.dirbc, threads);
+    };
+    if (c.getI("short_team", 0) && threads > 1) {
+        o.cls("constructed_with_a_short_team");
+#pragma omp parallel num_threads(2)
+        {
+#pragma omp single
+            construct();
+        }
+    }
+    else
+        construct();
+    DirectSolverGiveCustomLU& give = *giveP;
+    DirectSolverTakeCustomLU& take = *takeP;
     ResidualGive rGive(g, H.levels[0]->levelCache(), *H.geometry, *H.coefficients, p.dirbc, 1);
     ResidualTake rTake(g, H.levels[0]->levelCache(), *H.geometry, *H.coefficients, p.dirbc, 1);
 
@@ -200,6 +220,7 @@ static KV genCase()
     c.putI("cache_geom", rbool());
     c.putI("nrhs", rint(1, 3));
     c.putI("via_level", rweighted({3, 1}));
+    c.putI("short_team", rweighted({4, 1}));
     c.putI("f_scale_exp", rpick({0, 0, 0, 0, 0, 0, -600, -300, 300, 600}));
     c.putI("f_kind", rweighted({4, 3, 2, 2, 3, 1}));
     c.putU("f_seed", rseed());
